@@ -38,4 +38,12 @@ ENTRIES = {
     text="Seeded Hypothesis search: error arrays (1-200 drawn values, bulk to 1e6, magnitudes 1e-12..1e6, constant/single) against math.fsum statistics, order relations and rmse^2 = mean^2 + std^2; all 100 ordered unit pairs (exact rational conversion factor within 4 ulp, refusals leave values and unit untouched); ape()/rpe() results on generated timestamped trajectories: companion arrays refer to the right poses, stored trajectories are the processed ones ([0]+pair ends for RPE), title/label name metric, relation, unit, delta and pairing.",
     design_ref="5/C12", technique="property-based testing (Hypothesis) against fsum reference statistics, exact rational unit factors and a companion-array reference",
     note="Order relations carry a 1e-9 relative slack (one-ulp failures on constant arrays are not defects); distances-from-start are read on the stored trajectories."),
+ "C06": dict(
+    text="Seeded Hypothesis search over trajectories/results with coordinates across the whole finite double range (incl. -0.0, subnormals, 17-digit values), unit quaternions with full mantissas and epoch timestamps: write/re-read through TUM, KITTI, result archives (with/without embedded trajectories), DataFrame conversion and ROS1 bags, via str / pathlib.Path / handle, compared bit for bit (bags: stamps within 1 ns + 2 ulp); bulk trajectories to 1e5 poses in the thorough tier.",
+    design_ref="5/C06", technique="property-based testing (Hypothesis): bit-exact round-trip oracle",
+    note="Round trip only (a reader/writer pair sharing a wrong convention is C07's business); ROS2 bags outside the statement; bag stamps limited to 0 <= t < 2^31 by the pinned rosbags."),
+ "C07": dict(
+    text="Grammar-based Hypothesis generation of well-formed TUM/KITTI/EuRoC/transform files (float spellings, comments, BOM, CRLF, final newline, path/handle) whose loaded numbers must equal float(token) in the right slots and whose pose matrices must follow the (w,x,y,z) convention of an independent conversion; files written by evo are parsed by a strict independent parser; malformed files with one injected defect class at a drawn row/column (and invalid transforms) must raise FileInterfaceException and nothing else.",
+    design_ref="5/C07", technique="grammar-based property testing (Hypothesis) against an independent strict parser/writer; defect injection",
+    note="GREY inputs (nan/inf/underscore/non-ASCII digit tokens, CSV quoting, bare CR) are not judged either way."),
 }
